@@ -253,6 +253,11 @@ def check_c01(tier):
         nb, _ = binlayouts.run(V, tier, {"c01"})
         replayed += nb
         V.notes["lsp_sessions"] = nb
+        rm = rand_meta(tier)
+        if rm is not None:
+            nb2, _ = binlayouts.run(V, tier, {"c01"}, meta=rm, cap=60 if tier == "quick" else 1200)
+            replayed += nb2
+            V.notes["lsp_sessions_random_workspaces"] = nb2
     return V.finish(
         coverage_extra=tlc_cov(meta, replayed),
         rule="LSP tier: sampled layouts materialised on disk, textDocument/definition of the real binary at every usage. "
@@ -468,6 +473,11 @@ def check_c04(tier):
         nb, _ = binlayouts.run(V, tier, {"c04"})
         replayed += nb
         V.notes["lsp_sessions"] = nb
+        rm = rand_meta(tier)
+        if rm is not None:
+            nb2, _ = binlayouts.run(V, tier, {"c04"}, meta=rm, cap=60 if tier == "quick" else 1200)
+            replayed += nb2
+            V.notes["lsp_sessions_random_workspaces"] = nb2
     cov = tlc_cov(meta, replayed)
     cov["states"] += meta_chain["distinct"]
     cov["transitions"] += meta_chain["transitions"]
@@ -601,6 +611,11 @@ def check_c05(tier):
         nb, _ = binlayouts.run(V, tier, {"c05"})
         replayed += nb
         V.notes["lsp_sessions"] = nb
+        rm = rand_meta(tier)
+        if rm is not None:
+            nb2, _ = binlayouts.run(V, tier, {"c05"}, meta=rm, cap=60 if tier == "quick" else 1200)
+            replayed += nb2
+            V.notes["lsp_sessions_random_workspaces"] = nb2
     return V.finish(
         coverage_extra=tlc_cov(meta, replayed),
         rule="LSP tier: layouts materialised on disk, real binary: definition / hover / implementation / prepareCallHierarchy / "
